@@ -60,7 +60,7 @@ def run_history(ctx, exe, rng, idx):
             if (r < 0.30 or not live) and free_slots:
                 a, h = rng.choice(free_slots)
                 n = rng.choice(names)
-                v = rng.choice([0, 1, 1, 2, 3, 5])
+                v = rng.choice([0, 1, 1, 2, 3, 5, 0, 1, 2, 32767, 32768, 100000, 2 ** 31 - 1000])      # also values above _POSIX_SEM_VALUE_MAX, up to (history length) below SEM_VALUE_MAX so that releases cannot overflow
                 mode = "c" if rng.random() < 0.3 else "o"
                 what = "new(%s) agent%d h%d %s init=%d" % ("CREATE" if mode == "c" else "OPEN", a, h, n[-1], v)
                 log.append(what)
